@@ -3,7 +3,7 @@
    ExtrOcamlBasic only; nat / N / Z stay Coq datatypes. No Extract Constant. *)
 Require Import ExtrOcamlBasic.
 From Coq Require Import NArith ZArith List.
-From GV Require Import Gen.Instr Gen.Exec Gen.Dispatch Model.OpDispatch Spec.Defined Spec.Falsy
+From GV Require Import Gen.Instr Gen.Exec Gen.Truth Gen.Dispatch Model.OpDispatch Spec.Defined Spec.Falsy
   Proofs.C08.Enum Proofs.C08.Statement Proofs.C10.Classify.
 Cd "../build/ocaml".
 Extraction "dispatch_model.ml" step arity depth_delta wf_operand
